@@ -280,130 +280,138 @@ class SvsWorld(World):
 
     # ---- oracle ----------------------------------------------------------------------------
     def _judge(self):
-        ev = self.events
-        selfk = node_key(SELF)
-        rx_by_nonce = {e['nonce']: e for e in ev if e['k'] == 'rx'}
-        handled = {e['nonce']: e for e in ev if e['k'] == 'handled'}
-        heard = None            # merged dict of the vectors heard in the current suppression period
-        relaxed_period = False
-        for e in ev:
-            k = e['k']
-            if k == 'handled':
-                rx = rx_by_nonce.get(e['nonce'])
-                if rx is None:
-                    continue
-                before, after = e['before'], e['after']
-                cls, vec = classify_vector(rx, before.get(selfk))
-                raised_some = any(after.get(n) is not None and (before.get(n) is None or after[n] > before[n])
-                                  for n in after)
-                if e['raised']:
-                    self.violate('C18', 'handler-raised', 'svs', e['where'],
-                                 f'sync handler raised {e["raised"]} on vector {rx["sv"]} ({cls})')
-                if cls == 'reject':
-                    if _nz(after) != _nz(before):
-                        self.violate('C18', 'merged-rejected', 'svs', rx['vkind'],
-                                     f'vector {rx["sv"]} ({rx["vkind"]}) must be ignored entirely but changed the local '
-                                     f'vector from {_fmt(before)} to {_fmt(after)}')
-                    if e['callbacks']:
-                        self.violate('C18', 'callback-spurious', 'svs', 'reject', 'missing-data callback fired for an ignored vector')
-                elif cls == 'accept':
-                    want = dict(before)
-                    for n, s in vec.items():
-                        if want.get(n) is None or s > want[n]:
-                            want[n] = s
-                    if _nz(after) != _nz(want):
-                        self.violate('C18', 'merge', 'svs', 'entrywise-max',
-                                     f'after vector {rx["sv"]}: local vector is {_fmt(after)}, entry-wise maximum of '
-                                     f'{_fmt(before)} and the vector is {_fmt(want)}')
-                    if bool(e['callbacks']) != raised_some or e['callbacks'] > 1:
-                        self.violate('C18', 'callback', 'svs', 'fires' if e['callbacks'] else 'missing',
-                                     f'vector {rx["sv"]} {"raised" if raised_some else "did not raise"} an entry '
-                                     f'({_fmt(before)} -> {_fmt(after)}) but the missing-data callback fired {e["callbacks"]}x')
-                else:       # partly malformed: either ignored or the valid entries merged; callback consistent
-                    self.ambiguous += 1
-                    if bool(e['callbacks']) != raised_some and not e['raised']:
-                        self.violate('C18', 'callback', 'svs', 'partial',
-                                     f'vector {rx["sv"]}: local vector {_fmt(before)} -> {_fmt(after)} but callback fired {e["callbacks"]}x')
-                # suppression bookkeeping
-                if cls == 'accept' or (cls == 'unclear' and after != before):
-                    if e['state_before'] == 'SyncSteady' and e['state_after'] == 'SyncSuppression':
-                        heard = dict(vec)
-                        relaxed_period = cls != 'accept'
-                    elif e['state_before'] == 'SyncSuppression' and heard is not None:
-                        for n, s in vec.items():
-                            if heard.get(n) is None or s > heard[n]:
-                                heard[n] = s
-                        relaxed_period = relaxed_period or cls != 'accept'
-                elif cls == 'unclear' and e['state_before'] == 'SyncSuppression':
-                    relaxed_period = True
-            elif k == 'publish':
-                if e.get('ret') is None:
-                    self.violate('C18', 'publish-raised', 'svs', e.get('where', '?'), f'new_data() raised {e.get("exc")}')
-                    continue
-                if e['ret'] != e['before'] + 1 or e['local'].get(selfk) != e['before'] + 1:
-                    self.violate('C18', 'publish-seq', 'svs', 'new_data',
-                                 f'new_data() returned {e["ret"]} with own entry {e["local"].get(selfk)}; previous sequence number {e["before"]}')
-                if e['running']:
-                    ok = False
-                    for x in ev:
-                        if x['k'] == 'tx' and x['seq'] > e['seq0'] and x['t'] <= e['t'] + 200:
-                            if x['sv'] is not None and all(x['sv'].get(n) == s for n, s in e['local'].items()) \
-                                    and len(x['sv']) >= len(e['local']):
-                                ok = True
-                                break
-                            if x['sv'] is not None and x['sv'].get(selfk, -1) >= e['ret'] and \
-                                    all(x['sv'].get(n, -1) >= s for n, s in e['local'].items()):
-                                ok = True       # a newer full vector (another publication in the same instant)
-                                break
-                    stopped = any(x['k'] == 'stop' and e['seq'] < x['seq'] and x['t'] <= e['t'] + 200 for x in ev)
-                    # a vector heard in the same instant that already contains the new sequence number: the group
-                    # evidently knows it, the race with the suppression logic is not judged
-                    known = any(x['k'] == 'rx' and abs(x['t'] - e['t']) <= 200 and
-                                any(n == SELF and sq is not None and sq >= e['ret'] for n, sq in x['sv']) for x in ev)
-                    if known:
-                        self.ambiguous += 1
-                    if not ok and not stopped and not known:
-                        self.violate('C18', 'publish-no-interest', 'svs', 'new_data',
-                                     f'new_data() -> {e["ret"]} at t={e["t"]}us was not followed promptly by a sync Interest '
-                                     f'carrying the full vector {_fmt(e["local"])}')
-                heard = None        # a publication ends the suppression period
-            elif k == 'sup-end':
-                if e['by'] == 'timer' and heard is not None and not relaxed_period:
-                    local = e['local']
-                    needed = any(s is not None and s > (heard.get(n) or 0) for n, s in local.items())
-                    sent = [x for x in e['tx'] if x is not None]
-                    if needed and not sent:
-                        self.violate('C18', 'suppression-silent', 'svs', 'on_timer',
-                                     f'suppression ended with local {_fmt(local)} newer than the vectors heard {_fmt(heard)} '
-                                     f'but no sync Interest was emitted (library aggregate: {_fmt(e["agg"])})')
-                    elif not needed and sent:
-                        self.violate('C18', 'suppression-chatty', 'svs', 'on_timer',
-                                     f'suppression ended with local {_fmt(local)} not newer than the vectors heard {_fmt(heard)} '
-                                     f'but a sync Interest was emitted')
-                    elif sent and not all(sent[0].get(n) == s for n, s in local.items()):
-                        self.violate('C18', 'interest-vector', 'svs', 'on_timer',
-                                     f'sync Interest carries {_fmt(sent[0])}, local vector is {_fmt(local)}')
-                heard = None
-            elif k in ('stop', 'start'):
-                heard = None
-        for e in ev:
-            if e['k'] == 'sup-stuck':
-                self.violate('C18', 'suppression-stuck', 'svs', 'on_timer',
-                             f'the instance entered suppression at t={e["since"]}us and is still in suppression at t={e["t"]}us, '
-                             f'longer than any suppression timer it can sample ({e["bound"]}us): the period never ended, so no '
-                             f'decision about a sync Interest was taken (local {_fmt(e["local"])})')
-        for t in self.loop.unretrieved_task_errors():
-            if t in self.harness_tasks:
+        judge_node(self, self.events, SELF)
+
+
+def judge_node(self, ev, selfname=None, check_tasks=True):
+    """Reference-model check of one instance's history (`self` is the World used for reporting)."""
+    selfname = selfname or SELF
+    selfk = node_key(selfname)
+    rx_by_nonce = {e['nonce']: e for e in ev if e['k'] == 'rx'}
+    handled = {e['nonce']: e for e in ev if e['k'] == 'handled'}
+    heard = None            # merged dict of the vectors heard in the current suppression period
+    relaxed_period = False
+    for e in ev:
+        k = e['k']
+        if k == 'handled':
+            rx = rx_by_nonce.get(e['nonce'])
+            if rx is None:
                 continue
-            exc = t.exception()
-            self.violate('C18', 'task-died', 'svs', innermost_ndn_frame(exc), f'background task ended with {exc_brief(exc)}')
-        for rep in self.loop.exc_reports:
-            exc = rep['exc']
-            self.violate('C18', 'loop-exc', 'svs', innermost_ndn_frame(exc) if exc else 'loop',
-                         f'{rep["message"]} {rep["exc_type"]}')
+            before, after = e['before'], e['after']
+            cls, vec = classify_vector(rx, before.get(selfk), selfname)
+            raised_some = any(after.get(n) is not None and (before.get(n) is None or after[n] > before[n])
+                              for n in after)
+            if e['raised']:
+                self.violate('C18', 'handler-raised', 'svs', e['where'],
+                             f'sync handler raised {e["raised"]} on vector {rx["sv"]} ({cls})')
+            if cls == 'reject':
+                if _nz(after) != _nz(before):
+                    self.violate('C18', 'merged-rejected', 'svs', rx['vkind'],
+                                 f'vector {rx["sv"]} ({rx["vkind"]}) must be ignored entirely but changed the local '
+                                 f'vector from {_fmt(before)} to {_fmt(after)}')
+                if e['callbacks']:
+                    self.violate('C18', 'callback-spurious', 'svs', 'reject', 'missing-data callback fired for an ignored vector')
+            elif cls == 'accept':
+                want = dict(before)
+                for n, s in vec.items():
+                    if want.get(n) is None or s > want[n]:
+                        want[n] = s
+                if _nz(after) != _nz(want):
+                    self.violate('C18', 'merge', 'svs', 'entrywise-max',
+                                 f'after vector {rx["sv"]}: local vector is {_fmt(after)}, entry-wise maximum of '
+                                 f'{_fmt(before)} and the vector is {_fmt(want)}')
+                if bool(e['callbacks']) != raised_some or e['callbacks'] > 1:
+                    self.violate('C18', 'callback', 'svs', 'fires' if e['callbacks'] else 'missing',
+                                 f'vector {rx["sv"]} {"raised" if raised_some else "did not raise"} an entry '
+                                 f'({_fmt(before)} -> {_fmt(after)}) but the missing-data callback fired {e["callbacks"]}x')
+            else:       # partly malformed: either ignored or the valid entries merged; callback consistent
+                self.ambiguous += 1
+                if bool(e['callbacks']) != raised_some and not e['raised']:
+                    self.violate('C18', 'callback', 'svs', 'partial',
+                                 f'vector {rx["sv"]}: local vector {_fmt(before)} -> {_fmt(after)} but callback fired {e["callbacks"]}x')
+            # suppression bookkeeping
+            if cls == 'accept' or (cls == 'unclear' and after != before):
+                if e['state_before'] == 'SyncSteady' and e['state_after'] == 'SyncSuppression':
+                    heard = dict(vec)
+                    relaxed_period = cls != 'accept'
+                elif e['state_before'] == 'SyncSuppression' and heard is not None:
+                    for n, s in vec.items():
+                        if heard.get(n) is None or s > heard[n]:
+                            heard[n] = s
+                    relaxed_period = relaxed_period or cls != 'accept'
+            elif cls == 'unclear' and e['state_before'] == 'SyncSuppression':
+                relaxed_period = True
+        elif k == 'publish':
+            if e.get('ret') is None:
+                self.violate('C18', 'publish-raised', 'svs', e.get('where', '?'), f'new_data() raised {e.get("exc")}')
+                continue
+            if e['ret'] != e['before'] + 1 or e['local'].get(selfk) != e['before'] + 1:
+                self.violate('C18', 'publish-seq', 'svs', 'new_data',
+                             f'new_data() returned {e["ret"]} with own entry {e["local"].get(selfk)}; previous sequence number {e["before"]}')
+            if e['running']:
+                ok = False
+                for x in ev:
+                    if x['k'] == 'tx' and x['seq'] > e['seq0'] and x['t'] <= e['t'] + 200:
+                        if x['sv'] is not None and all(x['sv'].get(n) == s for n, s in e['local'].items()) \
+                                and len(x['sv']) >= len(e['local']):
+                            ok = True
+                            break
+                        if x['sv'] is not None and x['sv'].get(selfk, -1) >= e['ret'] and \
+                                all(x['sv'].get(n, -1) >= s for n, s in e['local'].items()):
+                            ok = True       # a newer full vector (another publication in the same instant)
+                            break
+                stopped = any(x['k'] == 'stop' and e['seq'] < x['seq'] and x['t'] <= e['t'] + 200 for x in ev)
+                # a vector heard in the same instant that already contains the new sequence number: the group
+                # evidently knows it, the race with the suppression logic is not judged
+                known = any(x['k'] == 'rx' and abs(x['t'] - e['t']) <= 200 and
+                            any(n == selfname and sq is not None and sq >= e['ret'] for n, sq in x['sv']) for x in ev)
+                if known:
+                    self.ambiguous += 1
+                if not ok and not stopped and not known:
+                    self.violate('C18', 'publish-no-interest', 'svs', 'new_data',
+                                 f'new_data() -> {e["ret"]} at t={e["t"]}us was not followed promptly by a sync Interest '
+                                 f'carrying the full vector {_fmt(e["local"])}')
+            heard = None        # a publication ends the suppression period
+        elif k == 'sup-end':
+            if e['by'] == 'timer' and heard is not None and not relaxed_period:
+                local = e['local']
+                needed = any(s is not None and s > (heard.get(n) or 0) for n, s in local.items())
+                sent = [x for x in e['tx'] if x is not None]
+                if needed and not sent:
+                    self.violate('C18', 'suppression-silent', 'svs', 'on_timer',
+                                 f'suppression ended with local {_fmt(local)} newer than the vectors heard {_fmt(heard)} '
+                                 f'but no sync Interest was emitted (library aggregate: {_fmt(e["agg"])})')
+                elif not needed and sent:
+                    self.violate('C18', 'suppression-chatty', 'svs', 'on_timer',
+                                 f'suppression ended with local {_fmt(local)} not newer than the vectors heard {_fmt(heard)} '
+                                 f'but a sync Interest was emitted')
+                elif sent and not all(sent[0].get(n) == s for n, s in local.items()):
+                    self.violate('C18', 'interest-vector', 'svs', 'on_timer',
+                                 f'sync Interest carries {_fmt(sent[0])}, local vector is {_fmt(local)}')
+            heard = None
+        elif k in ('stop', 'start'):
+            heard = None
+    for e in ev:
+        if e['k'] == 'sup-stuck':
+            self.violate('C18', 'suppression-stuck', 'svs', 'on_timer',
+                         f'the instance entered suppression at t={e["since"]}us and is still in suppression at t={e["t"]}us, '
+                         f'longer than any suppression timer it can sample ({e["bound"]}us): the period never ended, so no '
+                         f'decision about a sync Interest was taken (local {_fmt(e["local"])})')
+    if not check_tasks:
+        return
+    for t in self.loop.unretrieved_task_errors():
+        if t in self.harness_tasks:
+            continue
+        exc = t.exception()
+        self.violate('C18', 'task-died', 'svs', innermost_ndn_frame(exc), f'background task ended with {exc_brief(exc)}')
+    for rep in self.loop.exc_reports:
+        exc = rep['exc']
+        self.violate('C18', 'loop-exc', 'svs', innermost_ndn_frame(exc) if exc else 'loop',
+                     f'{rep["message"]} {rep["exc_type"]}')
 
 
-def classify_vector(rx, own_seq):
+def classify_vector(rx, own_seq, selfname=None):
+    selfname = selfname or SELF
     """-> ('accept'|'reject'|'unclear', dict node-key -> seq)"""
     if rx['short'] or rx['extra'] or rx['vkind'] in ('truncated', 'badlen', 'generic'):
         return 'reject', {}
@@ -417,7 +425,7 @@ def classify_vector(rx, own_seq):
         vec[key] = max(s, vec.get(key, -1))
     if not rx['sv']:
         return 'reject', {}
-    if any(n == SELF and s is not None and own_seq is not None and s > own_seq for n, s in rx['sv']):
+    if any(n == selfname and s is not None and own_seq is not None and s > own_seq for n, s in rx['sv']):
         return 'reject', {}
     if partial:
         return 'unclear', vec
